@@ -981,7 +981,7 @@ def build_server_binary():
 
 
 def conc_stage(rep, work, name, systems, clients, runs, ops, keys, gated, race=False, witness=False, timeout=900, seq=0,
-               kill_rounds=0, partrace=0, local=False, big="", sched=""):
+               kill_rounds=0, partrace=0, local=False, big="", sched="", programs=""):
     tag = re.sub(r"\W", "_", name)
     trace = work.path("conc.%s.ndjson" % tag)
     out = work.path("conc.%s.json" % tag)
@@ -1002,6 +1002,7 @@ def conc_stage(rep, work, name, systems, clients, runs, ops, keys, gated, race=F
         # every interleaving of the park points of small concurrent programs (sched.go)
         cmd = [binary, "sched", "--systems", ",".join(systems), "--seed", str(rep.seed), "--level", sched,
                "--trace", trace, "--out", out, "--max", "30000" if sched == "thorough" else "6000"]
+        cmd += ["--programs", programs] if programs else ["--no-auto"]
     env = dict(os.environ, GORACE="halt_on_error=0 history_size=3")
     mtdir = None
     if "mem" in systems and not kill_rounds:
@@ -1162,6 +1163,89 @@ def conc_stage(rep, work, name, systems, clients, runs, ops, keys, gated, race=F
         rep.violations.append((rp, desc))
     log("stage %-28s %d runs / %d events on %s clients %s race=%s: rejected %d, inconclusive %d" % (
         name, summ["runs"], summ["events"], ",".join(systems), clients, race, len(rejected), inconclusive))
+
+
+# ---------------------------------------------------------------------------
+# C07: the front end's step structure (MC_FrontEnd.tla) and the auto-bucket option (finding F35)
+
+FRONTEND_PROGRAMS = ["put-deletebucket-headbucket", "put-deletebucket-get", "put-put-get", "put-delete-head",
+                     "recreate-put", "two-by-two"]
+
+
+def frontend_stage(rep, work, name, systems):
+    """(1) TLC checks on the model of the front end's step structure (existence check / creation of a missing bucket /
+    call, one action each) that every request takes effect atomically under every interleaving -- it does without the
+    auto-bucket option, and TLC finds the counterexamples with it.  (2) The schedule explorer drives the auto-bucket
+    programs through the real code under every interleaving; the histories are decided by TraceConc against the
+    front end's actual, stepwise design (every one must be explained).  (3) The history in which a PUT with the
+    auto-bucket option is answered NoSuchBucket -- TLC's counterexample, found among the recorded ones by its
+    schedule -- is decided once more against the atomic reading of the request: rejected, it is finding F35."""
+    import hashlib
+    total = TLCResult()
+    design = {}
+    for auto in (False, True):
+        for prog in FRONTEND_PROGRAMS:
+            for exists in (True, False):
+                cfgfile = "MC_FrontEnd.%s.%s.%s.cfg" % (prog, auto, exists)
+                write_cfg(work.path(cfgfile), dict(Auto=auto, ProgName=prog, Exists=exists), invariants=["Atomic"])
+                res = run_tlc(work, "MC_FrontEnd.tla", cfgfile, workers=2, timeout=300)
+                total.distinct += res.distinct
+                total.generated += res.generated
+                text = "\n".join(res.log)
+                if "Invariant Atomic is violated" in text:
+                    verdict = "violated"
+                elif "Model checking completed. No error has been found." in text:
+                    verdict = "holds"
+                else:
+                    raise Infra("MC_FrontEnd %s: TLC did not finish:\n%s" % (cfgfile, "\n".join(res.log[-20:])))
+                design["%s auto=%s exists=%s" % (prog, auto, exists)] = verdict
+                if not auto and verdict != "holds":
+                    # without the option the stepwise front end must be atomic: otherwise the model of it is wrong
+                    raise Infra("MC_FrontEnd: Atomic violated without the auto-bucket option (%s)" % cfgfile)
+    rep.add_tlc(name + " (design)", total)
+    rep.stages.append({"stage": name + " (design)", "module": "MC_FrontEnd", "invariant": "Atomic",
+                       "configurations": len(design),
+                       "holds": sorted(k for k, v in design.items() if v == "holds"),
+                       "violated (auto-bucket option only: finding F35)": sorted(k for k, v in design.items() if v == "violated")})
+    log("stage %-28s MC_FrontEnd: Atomic holds in %d configurations, violated in %d (auto-bucket only)" % (
+        name, sum(v == "holds" for v in design.values()), sum(v == "violated" for v in design.values())))
+    # (2) the real code under every schedule of the auto-bucket programs, against the stepwise design
+    conc_stage(rep, work, name, systems, [3], runs=0, ops=0, keys=1, gated=False, sched="quick",
+               programs="auto-put-deletebucket-head,auto-put-put-get", timeout=900)
+    # (3) TLC's counterexample on the code: check 1, check 2, DeleteBucket 2, PutObject 1 -> NoSuchBucket
+    tag = re.sub(r"\W", "_", name)
+    trace = work.path("conc.%s.ndjson" % tag)
+    witness = None
+    for first, lines in split_runs(trace):
+        head = json.loads(lines[0])
+        if "auto-put-deletebucket-head:1:start,2:start,2:DeleteBucket,1:PutObject" not in (head.get("scenario") or ""):
+            continue
+        evs = [json.loads(x) for x in lines]
+        if any(e.get("t") == "res" and e.get("c") == "1" and e["r"].get("code") == "NoSuchBucket" for e in evs):
+            witness = (head, lines)
+            break
+    if witness:
+        head, lines = witness
+        head["cfg"]["autosteps"] = False          # the atomic reading: the request as ONE transition (S3!Step with cfg.auto)
+        single = work.path("conc.%s.f35.ndjson" % tag)
+        with open(single, "w") as f:
+            f.write(json.dumps(head) + "\n")
+            f.writelines(lines[1:])
+        v, at, _ = validate_conc(work, single, witness=False, timeout=120)
+        if v == "inconclusive":
+            raise Infra("stage %s: the atomic reading of the auto-bucket witness could not be decided" % name)
+        if v == "rejected":
+            desc = ("auto-bucket option: history of run on %s (%s): PutObject answered NoSuchBucket although the option "
+                    "creates missing buckets; no sequential order of the requests explains it" % (head.get("sys"), head.get("scenario")))
+            fid = classify(rep.prop, head.get("sys", ""), "Conc:auto-bucket", desc)
+            if fid:
+                rep.known[fid] = rep.known.get(fid, 0) + 1
+            else:
+                rp = os.path.join(OUT, "replays", rep.prop + "-conc-%s.ndjson" % hashlib.sha1("".join(lines).encode()).hexdigest()[:16])
+                with open(rp, "w") as f:
+                    f.writelines(lines)
+                rep.violations.append((rp, desc))
+    log("stage %-28s auto-bucket witness on the code: %s" % (name, "reproduced" if witness else "not observed"))
 
 
 # ---------------------------------------------------------------------------
